@@ -321,6 +321,31 @@ pub fn perm_base_opts(seed: u64, i: usize, rich: bool) -> Def {
         def.family = "perm-skips".into();
         def.normalize();
     }
+    if rng.chance(1, 4) {
+        // the same skip literal written twice with other arguments, and a token between their priorities
+        match rng.below(3) {
+            0 => {
+                def.push(Pat::skip("[%&]+").prio(9));
+                def.push(Pat::skip("[%&]+").prio(1));
+                def.push(Pat::regex("[%&$]+", 0).prio(5));
+            }
+            1 => {
+                let mut a = Pat::skip("%").prio(3);
+                a.ignore_case = true;
+                def.push(a);
+                def.push(Pat::skip("%").prio(4));
+                def.push(Pat::regex("[%&$]+", 0).prio(1));
+            }
+            _ => {
+                let mut a = Pat::skip("zq").prio(7);
+                a.ignore_case = true;
+                def.push(Pat::skip("zq").prio(2));
+                def.push(a);
+                def.push(Pat::regex("[%ZQzq]+", 0).prio(5));
+            }
+        }
+        def.normalize();
+    }
     if rng.chance(1, 2) {
         let mut s = Pat::skip("//[a-z]*");
         s.priority = Some(40);
@@ -329,6 +354,14 @@ pub fn perm_base_opts(seed: u64, i: usize, rich: bool) -> Def {
         def.normalize();
     }
     def
+}
+
+fn leaf_multiset(a: &analyze::Analysis) -> Option<Vec<(String, String, usize, bool)>> {
+    a.graph.as_ref().map(|g| {
+        let mut v: Vec<_> = g.leaves.iter().map(|l| (l.kind.clone(), l.pattern.clone(), l.priority, l.has_callback)).collect();
+        v.sort();
+        v
+    })
 }
 
 fn outcome_key(a: &analyze::Analysis) -> (String, Vec<String>) {
@@ -346,7 +379,7 @@ fn outcome_key(a: &analyze::Analysis) -> (String, Vec<String>) {
 
 /// One base definition: all argument orders of every pattern (<= 24 each), sampled orders of the
 /// combined #[logos(...)] attribute that keep subpatterns before their use and skips in order.
-pub fn perm_one(seed: u64, i: usize) -> (usize, usize, Vec<Value>, Option<Value>, bool) {
+pub fn perm_one(seed: u64, i: usize) -> (usize, usize, Vec<Value>, Option<Value>, bool, usize) {
     let base = perm_base(seed, i);
     let mut rng = Rng::derive(seed ^ 0x18C, i as u64);
     let a0 = analyze::run_generate(&base);
@@ -354,6 +387,7 @@ pub fn perm_one(seed: u64, i: usize) -> (usize, usize, Vec<Value>, Option<Value>
     let g0 = a0.graph.as_ref().map(|g| serde_json::to_string(&g.to_json()).unwrap());
     let mut evals = 1usize;
     let mut variants_tried = 0usize;
+    let mut skip_products = 0usize;
     let mut violations = vec![];
     let mut check = |d: &Def, what: String, violations: &mut Vec<Value>| {
         let a = analyze::run_generate(d);
@@ -389,6 +423,7 @@ pub fn perm_one(seed: u64, i: usize) -> (usize, usize, Vec<Value>, Option<Value>
         let is_skip = |s: &String| s.starts_with("skip");
         let mut tried = 0;
         let mut skip_orders_tried = 0;
+        let mut canon_product_ok: Option<bool> = None;
         for perm in permutations(n, 40, &mut rng).into_iter().skip(1) {
             // dependency respecting: subpatterns keep their relative order and precede all skips; skips keep their order
             let pos = |idx: usize| perm.iter().position(|&x| x == idx).unwrap();
@@ -414,6 +449,40 @@ pub fn perm_one(seed: u64, i: usize) -> (usize, usize, Vec<Value>, Option<Value>
                 let k = outcome_key(&a);
                 if k.0 != k0.0 || (k.0 == "rejected" && k.1.len() != k0.1.len()) {
                     violations.push(violation("C18", "skip-order-changes-acceptance", &format!("#[logos(...)] items in order {perm:?} (skips reordered): canonical order is {} with {} diagnostics, this order is {} with {}", k0.0, k0.1.len(), k.0, k.1.len()), &d, None, None));
+                } else if leaf_multiset(&a) != leaf_multiset(&a0) {
+                    // every item contributes exactly one leaf whatever the order: same patterns, priorities, kinds
+                    violations.push(violation("C18", "skip-order-changes-leaves", &format!("#[logos(...)] items in order {perm:?} (skips reordered): the set of leaves (kind, pattern, priority, callback) differs from the canonical order's: {:?} versus {:?}", leaf_multiset(&a), leaf_multiset(&a0)), &d, None, None));
+                } else if k.0 == "accepted" {
+                    // equivalence: the same definition written with its skips in this order (leaves renumbered
+                    // accordingly) must still implement its own reference; only judged when the canonical order does
+                    let canon_ok = *canon_product_ok.get_or_insert_with(|| {
+                        let mut r = crate::lcheck::DefReport::default();
+                        crate::lcheck::product_report(&base, &a0, None, Some("C18"), &mut r);
+                        r.violations.is_empty() && r.inconclusive.is_none()
+                    });
+                    if canon_ok {
+                        let skip_idx: Vec<usize> = (0..base.pats.len()).filter(|&k| base.pats[k].kind == PatKind::Skip).collect();
+                        let mut order: Vec<usize> = skips.clone();
+                        order.sort_by_key(|&k| pos(k));
+                        // items[skips[j]] is the j-th skip leaf of the base definition
+                        let mut d2 = base.clone();
+                        for (slot, item) in order.iter().enumerate() {
+                            let j = skips.iter().position(|x| x == item).unwrap();
+                            d2.pats[skip_idx[slot]] = base.pats[skip_idx[j]].clone();
+                        }
+                        let a2 = analyze::run_generate(&d2);
+                        evals += 1;
+                        if matches!(a2.outcome, Outcome::Accepted) {
+                            let mut r = crate::lcheck::DefReport::default();
+                            crate::lcheck::product_report(&d2, &a2, None, Some("C18"), &mut r);
+                            skip_products += 1;
+                            if let Some(v) = r.violations.into_iter().next() {
+                                violations.push(violation("C18", "skip-order-changes-lexer", &format!("skips written in the order {order:?} (item indices): the lexer no longer implements the definition although the canonical order does: {} {}", v["rule"].as_str().unwrap_or(""), v["detail"].as_str().unwrap_or("")), &d2, None, None));
+                            }
+                        } else {
+                            violations.push(violation("C18", "skip-order-changes-acceptance", &format!("skips written in the order {order:?}: {:?}", outcome_key(&a2).0), &d2, None, None));
+                        }
+                    }
                 }
                 continue;
             }
@@ -429,7 +498,7 @@ pub fn perm_one(seed: u64, i: usize) -> (usize, usize, Vec<Value>, Option<Value>
         }
     }
     let sample = if i % 50 == 0 { Some(json!({"canonical": base.render(), "outcome": k0.0, "orders_tried": variants_tried})) } else { None };
-    (evals, variants_tried, violations, sample, variants_tried > 0 && k0.0 == "accepted")
+    (evals, variants_tried, violations, sample, variants_tried > 0 && k0.0 == "accepted", skip_products)
 }
 
 pub fn perm(seed: u64, count: usize, threads: usize) -> Value {
@@ -439,7 +508,9 @@ pub fn perm(seed: u64, count: usize, threads: usize) -> Value {
     let mut nontrivial = 0;
     let mut violations = vec![];
     let mut samples = vec![];
-    for (e, o, v, s, nt) in res {
+    let mut skip_products = 0;
+    for (e, o, v, s, nt, sp) in res {
+        skip_products += sp;
         evals += e;
         orders += o;
         if nt {
@@ -450,7 +521,7 @@ pub fn perm(seed: u64, count: usize, threads: usize) -> Value {
             samples.push(s);
         }
     }
-    json!({"property": "C18", "definitions": count, "evaluations": evals, "orders_compared": orders, "nontrivial": nontrivial, "violations": violations, "samples": samples})
+    json!({"property": "C18", "definitions": count, "evaluations": evals, "orders_compared": orders, "skip_orders_checked_against_reference": skip_products, "nontrivial": nontrivial, "violations": violations, "samples": samples})
 }
 
 // ------------------------------------------------------------------------------------------------
